@@ -38,7 +38,11 @@ CLAIM = dict(
          "association list, Python set = duplicate-free list compared as a set. NOT proved, compared on the implementation by the "
          "harness only: the pickle byte stream itself, the correspondence of the heap model of copy independence "
          "(the row copy vs[:] of MultiDict.__init__ and the copy / __reduce_ex__ / __getstate__ / __setstate__ / __hash__ / "
-         "__eq__ bodies are pinned statement by statement; the harness mutates each copy and re-reads the original), "
+         "__eq__ bodies are pinned statement by statement; the harness mutates each copy and re-reads the original), value independence of deep copies (the model's values are "
+         "immutable strings: with list / dict / object values the oracle requires copy.deepcopy, deepcopy of an enclosing "
+         "structure, .deepcopy() and a pickle round trip to share no value with the original in either direction, and copy.copy / "
+         ".copy() to share the values but not the container, for MultiDict, ImmutableMultiDict, the ordered variants, "
+         "CombinedMultiDict, ImmutableDict, TypeConversionDict, ImmutableTypeConversionDict, ImmutableList, FileMultiDict, CallbackDict), "
          "FileMultiDict, get(type=...) conversions, None values. Known findings: CombinedMultiDict.__eq__ compares the empty "
          "dict storage, so any two CombinedMultiDict are equal; HeaderSet item assignment can create a case-insensitive "
          "duplicate; MultiDict.setlist(k, []) / setlistdefault(k) leave an empty list on which items()/values() raise IndexError.",
@@ -223,7 +227,7 @@ INVENTORY = {
     },
     "TypeConversionDict": {"read": ["get"], "mut": []},
     "CombinedMultiDict": {
-        "read": ["__reduce_ex__", "__init__", "fromkeys", "__getitem__", "get", "getlist", "_keys_impl", "keys", "__iter__",
+        "read": ["__reduce_ex__", "deepcopy", "__init__", "fromkeys", "__getitem__", "get", "getlist", "_keys_impl", "keys", "__iter__",
                  "items", "values", "lists", "listvalues", "copy", "__len__", "__contains__", "__repr__"],
         "mut": [],
     },
@@ -530,6 +534,7 @@ def gen() -> None:
     pin(px.find_class(st, "ImmutableMultiDict"), "__copy__", ["return self"])
     pin(px.find_class(st, "CombinedMultiDict"), "copy", ["return MultiDict(self)"])
     pin(px.find_class(st, "CombinedMultiDict"), "__reduce_ex__", ["return (type(self), (self.dicts,))"])
+    pin(px.find_class(st, "CombinedMultiDict"), "deepcopy", ["return self.__class__(deepcopy(self.dicts, memo))"])
     pin(H, "__eq__", ["if other.__class__ is not self.__class__:\n    return NotImplemented",
                       "def lowered(item: tuple[str, ...]) -> tuple[str, ...]:\n    return (item[0].lower(), *item[1:])",
                       "return set(map(lowered, other._list)) == set(map(lowered, self._list))"])
@@ -1779,6 +1784,156 @@ def run_eh(chk, ds, env: dict, ops, oracle=True) -> str:
 
 # ====================================================================== harness: protocol checks (not modelled)
 
+class Box:
+    """a small mutable value with __eq__ (module level, so that it pickles)"""
+    def __init__(self, v):
+        self.v = v
+
+    def __eq__(self, other):
+        return isinstance(other, Box) and self.v == other.v
+
+    __hash__ = None
+
+    def __repr__(self):
+        return f"Box({self.v!r})"
+
+
+def _mv_leaves(x, ds):
+    if isinstance(x, ds.CombinedMultiDict):
+        return [v for d in x.dicts for v in _mv_leaves(d, ds)]
+    if isinstance(x, ds.MultiDict):
+        return [v for _, vs in x.lists() for v in vs]
+    if isinstance(x, dict):
+        return list(dict.values(x))
+    return list(x)
+
+
+def _mv_snap(x, ds):
+    if isinstance(x, ds.MultiDict):
+        return repr([(k, list(vs)) for k, vs in x.lists()])
+    if isinstance(x, dict):
+        return repr(list(dict.items(x)))
+    return repr(list(x))
+
+
+def _mv_poke(v, tag):
+    """mutate one value in place; False when the value is not mutable"""
+    if isinstance(v, list):
+        v.append(tag)
+    elif isinstance(v, dict):
+        v[tag] = tag
+    elif isinstance(v, Box):
+        v.v = (v.v, tag)
+    else:
+        return False
+    return True
+
+
+def mutable_value_checks(chk, ds, rng, n):
+    """copy / deepcopy / pickle over containers whose VALUES are mutable (lists, dicts, a small object with __eq__; request.files
+    is an ImmutableMultiDict of FileStorage objects).  What the code does at this commit, and what is required:
+      deep routes  copy.deepcopy(x), copy.deepcopy of a structure holding x, x.deepcopy() where it exists, pickle round trip:
+                   the same type, equal content, no value object shared; poking a value on either side leaves the other side as
+                   it was; all routes agree.
+      shallow routes  copy.copy(x), x.copy(): the values ARE shared (by design); the result is x itself for the immutable kinds
+                   under copy.copy, else a separate container of the documented type, and growing it leaves x alone."""
+    import copy
+    import pickle
+    from werkzeug.datastructures import structures as st
+    OMD = getattr(st, "_OrderedMultiDict", None) or getattr(ds, "OrderedMultiDict", None)
+    IOMD = getattr(st, "_ImmutableOrderedMultiDict", None) or getattr(ds, "ImmutableOrderedMultiDict", None)
+
+    def value():
+        k = rng.randint(0, 5)
+        return [[1, 2], {"k": "v"}, Box(3), [Box("in"), "s"], {"k": [7]}, Box([1])][k]
+
+    def pairs():
+        return [(rng.choice(["a", "b", "a", "files"]), value()) for _ in range(rng.randint(1, 4))] + [("s", "plain")]
+
+    # kind -> (factory, immutable, type of .copy(), type of copy.copy; None = the object itself)
+    kinds = {
+        "MultiDict": (lambda: ds.MultiDict(pairs()), False, ds.MultiDict, ds.MultiDict),
+        "ImmutableMultiDict": (lambda: ds.ImmutableMultiDict(pairs()), True, ds.MultiDict, None),
+        "CombinedMultiDict": (lambda: ds.CombinedMultiDict([ds.MultiDict(pairs()), ds.ImmutableMultiDict(pairs())]), True, ds.MultiDict, ds.MultiDict),
+        "ImmutableDict": (lambda: ds.ImmutableDict(dict(pairs())), True, dict, None),
+        "TypeConversionDict": (lambda: ds.TypeConversionDict(dict(pairs())), False, dict, ds.TypeConversionDict),
+        "ImmutableTypeConversionDict": (lambda: ds.ImmutableTypeConversionDict(dict(pairs())), True, ds.TypeConversionDict, None),
+        "ImmutableList": (lambda: ds.ImmutableList([v for _, v in pairs()]), True, list, ds.ImmutableList),
+        "FileMultiDict": (lambda: ds.FileMultiDict(pairs()), False, ds.FileMultiDict, ds.FileMultiDict),
+        "CallbackDict": (lambda: ds.CallbackDict(dict(pairs())), False, dict, ds.CallbackDict),
+    }
+    if OMD is not None:
+        kinds["OrderedMultiDict"] = (lambda: OMD(pairs()), False, OMD, OMD)
+    if OMD is not None and IOMD is not None:
+        kinds["ImmutableOrderedMultiDict"] = (lambda: IOMD(pairs()), True, OMD, None)
+    deep = [("copy.deepcopy(x)", copy.deepcopy), ("copy.deepcopy({'w': x})['w']", lambda x: copy.deepcopy({"w": x})["w"]),
+            ("copy.deepcopy([x, x])[1]", lambda x: copy.deepcopy([x, x])[1]), ("x.deepcopy()", lambda x: x.deepcopy()),
+            ("pickle round trip", lambda x: pickle.loads(pickle.dumps(x)))]
+    for i in range(n):
+        for kind, (make, immutable, t_copy, t_copycopy) in kinds.items():
+            for how, route in deep:
+                x = make()
+                if how == "x.deepcopy()" and not hasattr(x, "deepcopy"):
+                    continue
+                case = {"kind": "mutable-values", "container": kind, "route": how, "content": _mv_snap(x, ds)}
+                try:
+                    before = _mv_snap(x, ds)
+                    c = route(x)
+                    if type(c) is not type(x) or _mv_snap(c, ds) != before:
+                        chk.fail("copy-not-equal", f"{kind}: {how} gives {type(c).__name__} {_mv_snap(c, ds)}, the original is {before}", case)
+                        continue
+                    lx, lc = _mv_leaves(x, ds), _mv_leaves(c, ds)
+                    shared = [repr(a) for a, b in zip(lx, lc) if a is b and _mv_poke(copy.deepcopy(a), "probe")]
+                    if shared:
+                        chk.fail("copy-value-independence", f"{kind}: {how} shares the mutable values {shared} with the original", case)
+                        continue
+                    for v in lc:
+                        _mv_poke(v, "poked")
+                    if _mv_snap(x, ds) != before:
+                        chk.fail("copy-value-independence", f"{kind}: changing a value inside the result of {how} changed the original: "
+                                 f"{before} -> {_mv_snap(x, ds)}", case)
+                        continue
+                    after_c = _mv_snap(c, ds)
+                    for v in lx:
+                        _mv_poke(v, "poked2")
+                    if _mv_snap(c, ds) != after_c:
+                        chk.fail("copy-value-independence", f"{kind}: changing a value inside the original changed the result of {how}", case)
+                except Exception as e:  # noqa: BLE001
+                    chk.fail("copy-not-equal", f"{kind}: {how} or reading its result raised {type(e).__name__}: {e}", case)
+            for how, route, want in (("copy.copy(x)", copy.copy, t_copycopy), ("x.copy()", lambda x: x.copy(), t_copy)):
+                x = make()
+                case = {"kind": "mutable-values", "container": kind, "route": how, "content": _mv_snap(x, ds)}
+                try:
+                    before = _mv_snap(x, ds)
+                    c = route(x)
+                    if want is None:
+                        if c is not x:
+                            chk.fail("copy-shape", f"{kind}: {how} of an immutable container is no longer the container itself", case)
+                        continue
+                    if type(c) is not want or c is x or _mv_snap(c, ds) != before:
+                        chk.fail("copy-shape", f"{kind}: {how} gives {type(c).__name__} {_mv_snap(c, ds)}, expected a separate {want.__name__} with the same content", case)
+                        continue
+                    lx, lc = _mv_leaves(x, ds), _mv_leaves(c, ds)
+                    if sorted(map(id, lx)) != sorted(map(id, lc)):
+                        chk.fail("copy-shape", f"{kind}: {how} no longer shares the value objects (a shallow copy copies the container only)", case)
+                        continue
+                    if immutable and type(c) is type(x):
+                        continue
+                    if isinstance(c, list):
+                        c.append("grown")
+                    elif isinstance(c, ds.MultiDict):
+                        c.add("grown", "1")
+                        c.add("s", "2")
+                    else:
+                        c["grown"] = "1"
+                    if _mv_snap(x, ds) != before:
+                        chk.fail("copy-independence", f"{kind}: growing the result of {how} changed the original: {before} -> {_mv_snap(x, ds)}", case)
+                except Exception as e:  # noqa: BLE001
+                    chk.fail("copy-shape", f"{kind}: {how} raised {type(e).__name__}: {e}", case)
+        chk.case(("mutable-values", i), nontrivial=True)
+    chk.count("copy / deepcopy / pickle with mutable values (oracle only)", n * len(kinds))
+
+
 def heap_shape_checks(chk, ds):
     """the four primitives of the heap model (C08/ProofsCopy.v) on the implementation, by object identity of the rows:
     add appends to the row in place, __setitem__ / setlist / setdefault bind a newly built row (never the caller's list),
@@ -2370,6 +2525,7 @@ def run(chk: Check) -> None:
                      {"kind": "md", "init": init, "ops": []})
     request_headers_view(chk, rng, 60 if quick else 1500)
     heap_shape_checks(chk, ds)
+    mutable_value_checks(chk, ds, rng, 40 if quick else 800)
     protocol_checks(chk, ds, rng, 150 if quick else 3000)
     mapping_entry_points(chk, ds, R)
     eq_checks(chk, ds, rng, R, 1500 if quick else 30000)
